@@ -117,9 +117,8 @@ type Vaxis struct {
 	cursorNext       cursorState
 	cursorLast       cursorState
 	closed           bool
-	// suspended is true between Suspend and Resume: the terminal is in
-	// the user's state and nothing of ours is left to undo
-	suspended bool
+	closeOnce        sync.Once
+	suspended        bool // between Suspend and Resume: nothing of ours is left to undo
 	refresh          bool
 	kittyFlags       int
 	disableMouse     bool
@@ -427,9 +426,14 @@ func (vx *Vaxis) Events() chan Event {
 // Close shuts down the event loops and returns the terminal to it's original
 // state
 func (vx *Vaxis) Close() {
-	if vx.closed {
-		return
-	}
+	// Only the first call shuts down. A call made while that one is under
+	// way (the application leaving its loop on the QuitEvent of a Close
+	// started by a signal) returns when the terminal has been restored,
+	// not before
+	vx.closeOnce.Do(vx.close)
+}
+
+func (vx *Vaxis) close() {
 	vx.PostEvent(QuitEvent{})
 	vx.closed = true
 
